@@ -2,7 +2,7 @@
 """Regenerates /verif/seeded/INDEX.md from the meta.json files."""
 import json, glob, os
 rows = []
-for d in sorted(glob.glob("/verif/seeded/[STUVWX]-*")):
+for d in sorted(glob.glob("/verif/seeded/[STUVWXY]-*")):
     m = json.load(open(os.path.join(d, 'meta.json')))
     det = [p for p, r in m['checks_run'].items() if r == 'DETECTED']
     miss = [p for p, r in m['checks_run'].items() if r != 'DETECTED']
